@@ -8,7 +8,7 @@ import os
 D = "/verif/coq/Properties"
 IMPORTS = ("From CB Require Import Spec Unstable.\nFrom Coq Require Import Permutation.\n"
            "From CBP Require Import Step RefDefs C02Lemmas Arith AbsLemmas AllOps FaultDefs FaultPrims FaultDropA FaultDropB FaultUser\n"
-           "     Iters DrainP ExtendIo CmpHash Ctors PhysMoves UnstableEq Access Views RefTruncate FillExtend%s.\n")
+           "     Iters DrainP ExtendIo CmpHash Ctors PhysMoves UnstableEq Access Views RefTruncate FillExtend FaultFrame SpecCorollaries%s.\n")
 
 P = {}
 
@@ -137,6 +137,13 @@ P["C05"] = ("""C05 — a panicking element destructor never causes a second drop
     ("extend_from_slice", "xs", "OExtendFromSlice xs", "extend_from_slice_fault"),
     ("drain_all", "script", "ODrain BUnb BUnb script false", "drain_all_fault"),
 ]) + [
+    ("C05_frame", """forall o fk s w k,
+  may_call o fk = false -> fault w = Some (fk, k) ->
+  exec o s w =
+    let '(r, s', w') := exec o s (w_fault w None) in (r, s', w_fault w' (Some (fk, k)))""", "fault_frame"),
+    ("C05_frame_refines", """forall o fk s w k,
+  may_call o fk = false -> WF s -> op_ok s o -> fault w = Some (fk, k) ->
+  refines_at_armed o s w fk k""", "fault_frame_refines"),
     ("C05_drain", "forall sb eb script, fault_safe_when (fun s => spec_bounds (size s) sb eb <> None) (ODrain sb eb script false) FDrop", "drain_fault"),
 ])
 
@@ -149,7 +156,15 @@ P["C06"] = ("""C06 — a panic in user code (Clone, closure, iterator, eq, cmp, 
     ("extend", "xs", "OExtend xs", "extend_next_fault"), ("from_iter", "xs", "OFromIter xs", "from_iter_next_fault")]) + faults("C06", "FEq", [
     ("eq", "other", "OEq other", "eq_fault"), ("eq_slice", "form xs", "OEqSlice form xs", "eq_slice_fault")]) + faults("C06", "FCmp", [
     ("partial_cmp", "other", "OPartialCmp other", "partial_cmp_fault"), ("cmp", "other", "OCmp other", "cmp_fault")]) + faults("C06", "FHash", [
-    ("hash", "", "OHash", "hash_fault")]) + faults("C06", "FFmt", [("debug", "", "ODebug", "debug_fault")]))
+    ("hash", "", "OHash", "hash_fault")]) + faults("C06", "FFmt", [("debug", "", "ODebug", "debug_fault")]) + [
+    ("C06_frame", """forall o fk s w k,
+  may_call o fk = false -> fault w = Some (fk, k) ->
+  exec o s w =
+    let '(r, s', w') := exec o s (w_fault w None) in (r, s', w_fault w' (Some (fk, k)))""", "fault_frame"),
+    ("C06_frame_refines", """forall o fk s w k,
+  may_call o fk = false -> WF s -> op_ok s o -> fault w = Some (fk, k) ->
+  refines_at_armed o s w fk k""", "fault_frame_refines"),
+])
 
 C06_CLONE = faults("C06", "FClone", [
     ("fill_spare_clone", "v", "OFillSpare v", "fill_spare_clone_fault"), ("fill_clone", "v", "OFill v", "fill_clone_fault"),
@@ -176,6 +191,21 @@ P["C07"] = ("""C07 — all views of the contents agree; mutable views alias exac
     ("iter_mut", "script", "OIterMut script"), ("range_mut", "sb eb script", "ORangeMut sb eb script"),
     ("as_mut_slices", "ws", "OAsMutSlicesSet ws"), ("make_contiguous", "ws", "OMakeContiguous ws"),
 ]) + [
+    ("C07_sequence_views", """forall s w,
+  WF s -> fault w = None ->
+  let l := abs s in
+  (exists a b s', exec OAsSlices s w = (Ok (OutSlices a b), s', w) /\\
+                  map snd (a ++ b) = l /\\ abs s' = l) /\\
+  (exists cs s' w', exec OToVec s w = (Ok (OutList cs), s', w') /\\
+                    map eval cs = map eval l /\\ abs s' = l) /\\
+  (exists s' w', exec ODebug s w = (Ok OutUnit, s', w') /\\
+                 log w' = log w ++ map EvFmt l /\\ abs s' = l) /\\
+  (exists rs s', exec (OIter (repeat SNext (length l))) s w = (Ok (OutScript rs), s', w) /\\
+                 map erase_sres rs = map (fun e => RItem (Some (epe e))) l /\\ abs s' = l)""", "exec_seq_views"),
+    ("C07_element_views", """forall s w o e,
+  WF s -> fault w = None -> ref_view (abs s) o e ->
+  exists p s', exec o s w = (Ok (OutRef p), s', w) /\\ option_map snd p = e /\\
+               abs s' = abs s /\\ WF s' /\\ cap s' = cap s""", "exec_ref_views"),
     ("C07_distinct_slots", """forall s i j,
   0 < cap s -> 0 <= start s < cap s -> 0 <= i < cap s -> 0 <= j < cap s ->
   phys s i = phys s j -> i = j""", "phys_inj"),
@@ -190,7 +220,22 @@ P["C08"] = ("""C08 — borrowing and owning iterators obey the double-ended exac
    advance_front_by, advance_back_by and slice_take without a bounds panic.""", "", ops("C08", [
     ("iter", "script", "OIter script"), ("range", "sb eb script", "ORange sb eb script"),
     ("iter_mut", "script", "OIterMut script"), ("range_mut", "sb eb script", "ORangeMut sb eb script"),
-    ("into_iter", "script", "OIntoIter script")]))
+    ("into_iter", "script", "OIntoIter script")]) + [
+    ("C08_protocol", """forall l lo hi sc rs l' lo' hi',
+  (lo <= hi <= length l)%nat -> plain_script sc = true ->
+  spec_script l lo hi sc = (rs, l', (lo', hi')) ->
+  l' = l /\\
+  de_protocol (sublist lo hi l) sc rs /\\
+  lo' = (lo + length (front_items sc rs))%nat /\\
+  hi' = (hi - length (back_items sc rs))%nat /\\
+  (lo' <= hi')%nat /\\
+  sublist lo' hi' l = unyielded (sublist lo hi l) sc rs""", "script_protocol"),
+    ("C08_iter_protocol", """forall s w sc v s' w',
+  WF s -> fault w = None -> plain_script sc = true ->
+  exec (OIter sc) s w = (Ok v, s', w') ->
+  exists rs, v = OutScript rs /\\ de_protocol (abs s) sc (map erase_sres rs) /\\
+             abs s' = abs s /\\ log w' = log w""", "exec_iter_protocol"),
+])
 
 P["C09"] = ("""C09 — drain removes exactly the requested range and keeps the rest in
    order: for every capacity (0 included), layout, range-bounds form and script,
@@ -198,7 +243,19 @@ P["C09"] = ("""C09 — drain removes exactly the requested range and keeps the r
    window of [abs s] consumed from both ends with exact len, leaves
    firstn a ++ skipn b, and destroys exactly the un-yielded drained elements,
    once each, in order.""", "", [
-    ("C09_drain_drop", "forall sb eb script, refines_op (ODrain sb eb script false)", "drain_drop_op")])
+    ("C09_drain_drop", "forall sb eb script, refines_op (ODrain sb eb script false)", "drain_drop_op"),
+    ("C09_drain_protocol", """forall s w sb eb sc v s' w',
+  WF s -> fault w = None -> bound_ok sb -> bound_ok eb ->
+  exec (ODrain sb eb sc false) s w = (Ok v, s', w') ->
+  exists a b rs,
+    spec_bounds (size s) sb eb = Some (a, b) /\\ v = OutScript rs /\\
+    let win := sublist (nat_of a) (nat_of b) (abs s) in
+    let sc' := map plain_step sc in
+    let rs' := map erase_sres rs in
+    de_protocol win sc' rs' /\\
+    abs s' = firstn (nat_of a) (abs s) ++ skipn (nat_of b) (abs s) /\\
+    log w' = log w ++ drops (unyielded win sc' rs')""", "exec_drain_protocol"),
+])
 
 P["C10"] = ("""C10 — leaking a drain is safe: after mem::forget at any point of any
    script the state is well formed, its contents (the model: none) are drawn
@@ -266,6 +323,23 @@ P["C16"] = ("""C16 — the embedded-io and embedded-io-async impls behave exactl
    future is polled once), not modelled.""", "", fam_eqs + ops("C16", [
     ("write", "fam src", "OWrite fam src"), ("flush", "fam", "OFlush fam"), ("read", "fam dst", "ORead fam dst"),
     ("fill_buf", "fam", "OFillBuf fam"), ("consume", "fam k", "OConsume fam k")]))
+
+P["C17"] = ("""C17 — no operation allocates (apart from to_vec; boxed() is not in the
+   operation language of the model): the capacity, hence the inline storage,
+   never changes, and the only allocation event any returning call emits is the
+   single one of to_vec on a non-empty buffer. What decides the property on the
+   real code is the allocation-counting correspondence and the no_std / alloc
+   builds (see evidence); these theorems fix what the model predicts.""", "", [
+    ("C17_no_alloc", """forall o s w v s' w',
+  WF s -> fault w = None -> op_ok s o ->
+  exec o s w = (Ok v, s', w') ->
+  exists evs, log w' = log w ++ evs /\\ (o <> OToVec -> ~ In EvAlloc evs) /\\ cap s' = cap s""", "exec_allocs"),
+    ("C17_to_vec_allocs_once", """forall s w v s' w',
+  WF s -> fault w = None ->
+  exec OToVec s w = (Ok v, s', w') ->
+  exists evs, log w' = log w ++ evs /\\
+    count_occ event_eq_dec evs EvAlloc = (if 0 <? size s then 1%nat else 0%nat)""", "exec_to_vec_allocs"),
+])
 
 P["C18"] = ("""C18 — enabling the `unstable` feature does not change behaviour:
    theories/Unstable.v models every cfg(feature = "unstable") body; the whole
